@@ -174,6 +174,7 @@ sched_of(const Plan& p)
     c.p_stall = p.getd("sched.p_stall", 0);
     c.p_spurious = p.getd("sched.p_spurious", 0);
     c.p_startdelay = p.getd("sched.p_startdelay", 0);
+    c.p_access = p.getd("sched.p_access", 0);
     c.max_stall_ns = (uint64_t)p.geti("sched.max_stall_ns", 50000000);
     c.step_cap = (uint64_t)p.geti("sched.step_cap", 2000000);
     if (p.has_events) {
